@@ -584,6 +584,14 @@ impl<'tcx> Extractor<'tcx> {
         if let ty::FnDef(def, args) = t.kind() {
             fields.push(format!("\"fn\":{}", esc(&self.path(*def))));
             fields.push(format!("\"fn_inst\":{}", esc(&self.path_args(*def, args))));
+            // a trait method named as a value (`.map(Replay::from)`): the implementation it denotes
+            if tcx.trait_of_assoc(*def).is_some() {
+                if let Ok(Some(inst)) = ty::Instance::try_resolve(tcx, typing_env, *def, args) {
+                    if inst.def_id() != *def {
+                        fields.push(format!("\"fn_resolved\":{}", esc(&self.path(inst.def_id()))));
+                    }
+                }
+            }
         }
         if let ty::Closure(def, _) | ty::Coroutine(def, _) = t.kind() {
             fields.push(format!("\"closure\":{}", esc(&self.path(*def))));
